@@ -24,11 +24,13 @@ CONSTANTS Kinds,      \* request kinds the client may send
           CtxIds      \* identities of ctx objects
 
 \* kinds: "get" "form" "multipart" "chunked" (ordinary), "bad" (parse error), "reject" (expectation
-\* rejected), "timeout" (TimeoutHandler fires), "hijack", "hclose" (handler asks for close)
-Ends(k) == k \in {"bad", "reject", "hijack", "hclose"}     \* connection ends after this request
-Dispatches(k) == k \notin {"bad", "reject"}
+\* rejected), "timeout" (TimeoutHandler fires), "hijack", "hclose" (handler asks for close),
+\* "abort" (chunked body cut inside a chunk, then the client goes away: with StreamRequestBody the
+\* handler is dispatched and finds the body broken, otherwise reading the body fails)
+Ends(k) == k \in {"bad", "reject", "hijack", "hclose", "abort"}     \* connection ends after this request
 
 VARIABLES
+  stream,   \* StreamRequestBody (server configuration, fixed for the history)
   pool,     \* set of pooled ctx ids
   ctx,      \* [CtxIds -> [req, uv, resp]] ; req/resp = index of the writing request or 0; uv = set of indices
   late,     \* set of ctx ids abandoned to timed-out handlers
@@ -40,11 +42,14 @@ VARIABLES
   hist,     \* history: the requests sent  [k, conn]
   seen      \* history: what each dispatched handler saw at its start [n, req, uv, resp]
 
-vars == <<pool, ctx, late, cur, conn, phase, n, kind, hist, seen>>
+vars == <<stream, pool, ctx, late, cur, conn, phase, n, kind, hist, seen>>
+
+Dispatches(k) == k \notin {"bad", "reject"} /\ (k = "abort" => stream)
 
 Clean == [req |-> 0, uv |-> {}, resp |-> 0]
 
 Init ==
+  /\ stream \in BOOLEAN
   /\ pool = {} /\ ctx = [i \in CtxIds |-> Clean] /\ late = {} /\ cur = 0 /\ conn = 0
   /\ phase = "idle" /\ n = 0 /\ kind = "none" /\ hist = <<>> /\ seen = <<>>
 
@@ -61,7 +66,7 @@ OpenConn(i) ==
   /\ i \in Acquirable
   /\ pool' = pool \ {i}
   /\ cur' = i /\ conn' = conn + 1 /\ phase' = "wait"
-  /\ UNCHANGED <<ctx, late, n, kind, hist, seen>>
+  /\ UNCHANGED <<stream, ctx, late, n, kind, hist, seen>>
 
 \* the next request arrives and is parsed into the ctx: parsing overwrites all request data
 Parse(k) ==
@@ -70,7 +75,7 @@ Parse(k) ==
   /\ hist' = Append(hist, [k |-> k, conn |-> conn])
   /\ ctx' = [ctx EXCEPT ![cur].req = IF k = "bad" THEN 0 ELSE n + 1]
   /\ phase' = "parsed"
-  /\ UNCHANGED <<pool, late, cur, conn, seen>>
+  /\ UNCHANGED <<stream, pool, late, cur, conn, seen>>
 
 \* parse error / rejected expectation: error response, the connection is closed, the ctx is
 \* reset and released.  The decision is local to this request: nothing of it survives.
@@ -79,13 +84,13 @@ EndWithoutHandler ==
   /\ ctx' = [ctx EXCEPT ![cur] = Clean]
   /\ pool' = pool \cup {cur}
   /\ cur' = 0 /\ phase' = "idle"
-  /\ UNCHANGED <<late, conn, n, kind, hist, seen>>
+  /\ UNCHANGED <<stream, late, conn, n, kind, hist, seen>>
 
 HandlerStart ==
   /\ phase = "parsed" /\ Dispatches(kind)
   /\ seen' = Append(seen, [n |-> n, req |-> ctx[cur].req, uv |-> ctx[cur].uv, resp |-> ctx[cur].resp])
   /\ phase' = "handler"
-  /\ UNCHANGED <<pool, ctx, late, cur, conn, n, kind, hist>>
+  /\ UNCHANGED <<stream, pool, ctx, late, cur, conn, n, kind, hist>>
 
 \* the handler dirties everything it can reach, then returns; the response is written and
 \*   - ordinary request: Request.Reset + Response.Reset, the connection waits for the next one
@@ -111,7 +116,7 @@ HandlerDone(i) ==
             /\ ctx' = [ctx EXCEPT ![cur] = Clean]
             /\ UNCHANGED <<pool, late, cur>>
             /\ phase' = "wait"
-  /\ UNCHANGED <<conn, n, kind, hist, seen>>
+  /\ UNCHANGED <<stream, conn, n, kind, hist, seen>>
 
 \* the client closes an idle keep-alive connection
 CloseConn ==
@@ -119,13 +124,13 @@ CloseConn ==
   /\ ctx' = [ctx EXCEPT ![cur] = Clean]
   /\ pool' = pool \cup {cur}
   /\ cur' = 0 /\ phase' = "idle"
-  /\ UNCHANGED <<late, conn, n, kind, hist, seen>>
+  /\ UNCHANGED <<stream, late, conn, n, kind, hist, seen>>
 
 \* a timed-out handler keeps writing to the ctx it still holds
 LateMutate(i) ==
   /\ i \in late
   /\ ctx' = [ctx EXCEPT ![i].resp = -1, ![i].uv = @ \cup {-1}]
-  /\ UNCHANGED <<pool, late, cur, conn, phase, n, kind, hist, seen>>
+  /\ UNCHANGED <<stream, pool, late, cur, conn, phase, n, kind, hist, seen>>
 
 Next ==
   \/ \E i \in CtxIds : OpenConn(i) \/ HandlerDone(i) \/ LateMutate(i)
